@@ -43,8 +43,14 @@ Definition table_is_SI_b : bool :=
   forallb (fun e => mem (fst e) (map fst SI_PREFIX_EXP)) PREFIX_FACTORS &&
   forallb factor_entry_ok PREFIX_FACTORS.
 
-Lemma table_is_SI_check : table_is_SI_b = true.
-Proof. vm_compute. reflexivity. Qed.
+(* stated on the unfolded sweep: using it needs no conversion (the kernel would re-evaluate the sweep) *)
+Lemma table_is_SI_check :
+  forallb (fun pe => match factor_at (fst pe) with Ok k => k =? snd pe | _ => false end) SI_PREFIX_EXP &&
+  forallb (fun p => mem p (map fst SI_PREFIX_EXP)) PREFIXES &&
+  forallb (fun pe => mem (fst pe) PREFIXES) SI_PREFIX_EXP &&
+  forallb (fun e => mem (fst e) (map fst SI_PREFIX_EXP)) PREFIX_FACTORS &&
+  forallb factor_entry_ok PREFIX_FACTORS = true.
+Proof. vm_cast_no_check (@eq_refl bool true). Qed.
 
 (** The prefix table of the source is the SI table: every SI prefix has its SI exponent, the
     alternation PREFIXES lists exactly the SI prefixes, the table has no further entries, and
@@ -54,7 +60,7 @@ Theorem table_is_SI :
   (forall p, In p PREFIXES <-> In p (map fst SI_PREFIX_EXP)) /\
   (forall e, In e PREFIX_FACTORS -> In (fst e) (map fst SI_PREFIX_EXP) /\ factor_entry_ok e = true).
 Proof.
-  pose proof table_is_SI_check as H. unfold table_is_SI_b in H.
+  pose proof table_is_SI_check as H.
   rewrite !andb_true_iff in H. destruct H as [[[[H1 H2] H3] H4] H5].
   split; [|split].
   - intros p e Hin. rewrite forallb_forall in H1. specialize (H1 _ Hin). cbn [fst snd] in H1.
@@ -541,8 +547,13 @@ Definition unambiguous_b : bool :=
                             (((fst a) =? (fst b))%string && ((snd a) =? (snd b))%string)) prefix_unit_pairs)
     prefix_unit_pairs.
 
-Lemma unambiguous_check : unambiguous_b = true.
-Proof. vm_compute. reflexivity. Qed.
+(* stated on the unfolded sweep: using it needs no conversion (the kernel would re-evaluate the sweep) *)
+Lemma unambiguous_check :
+  forallb (fun a => no_caret (fst a ++ snd a) &&
+    forallb (fun b => implb ((fst a ++ snd a) =? (fst b ++ snd b))%string
+                            (((fst a) =? (fst b))%string && ((snd a) =? (snd b))%string)) prefix_unit_pairs)
+    prefix_unit_pairs = true.
+Proof. vm_cast_no_check (@eq_refl bool true). Qed.
 
 Lemma pair_in : forall p u, In p ALL_PREFIXES -> In u UNITS -> In (p, u) prefix_unit_pairs.
 Proof.
@@ -558,7 +569,7 @@ Proof.
   intros p1 u1 w1 p2 u2 w2 H1 H2 He. unfold print_unit in He.
   apply parts_ok_spec in H1, H2. destruct H1 as [Hp1 [Hu1 [n1 Hn1]]], H2 as [Hp2 [Hu2 [n2 Hn2]]].
   apply ALL_PREFIXES_In in Hp1, Hp2.
-  pose proof unambiguous_check as Hc. unfold unambiguous_b in Hc. rewrite forallb_forall in Hc.
+  pose proof unambiguous_check as Hc. rewrite forallb_forall in Hc.
   pose proof (Hc _ (pair_in _ _ Hp1 Hu1)) as Ha. pose proof (Hc _ (pair_in _ _ Hp2 Hu2)) as Hb.
   cbn [fst snd] in Ha, Hb. apply andb_prop in Ha, Hb. destruct Ha as [Hnc1 Ha], Hb as [Hnc2 _].
   rewrite <- !app_assoc_s in He.
@@ -735,14 +746,19 @@ Definition parse_print_partial_b : bool :=
           (split_is (print_unit p u w) p u (power_text w) && isSIUnit (print_unit p u w)))
     POWER_SUFFIXES) UNITS) ALL_PREFIXES.
 
-Lemma parse_print_partial_check : parse_print_partial_b = true.
-Proof. vm_compute. reflexivity. Qed.
+(* stated on the unfolded sweep: using it needs no conversion (the kernel would re-evaluate the sweep) *)
+Lemma parse_print_partial_check :
+  forallb (fun p => forallb (fun u => forallb (fun w =>
+    implb (negb (mem u shadowed_units) || is_empty w)
+          (split_is (print_unit p u w) p u (power_text w) && isSIUnit (print_unit p u w)))
+    POWER_SUFFIXES) UNITS) ALL_PREFIXES = true.
+Proof. vm_cast_no_check (@eq_refl bool true). Qed.
 
 Theorem parse_print_partial : forall p u w, In p ALL_PREFIXES -> In u UNITS -> In w POWER_SUFFIXES ->
   ~ In u shadowed_units \/ w = "" ->
   splitUnit (print_unit p u w) = Ok (p, u, power_text w) /\ isSIUnit (print_unit p u w) = true.
 Proof.
-  intros p u w Hp Hu Hw Hns. pose proof parse_print_partial_check as H. unfold parse_print_partial_b in H.
+  intros p u w Hp Hu Hw Hns. pose proof parse_print_partial_check as H.
   rewrite forallb_forall in H. specialize (H _ Hp).
   rewrite forallb_forall in H. specialize (H _ Hu).
   rewrite forallb_forall in H. specialize (H _ Hw).
